@@ -711,7 +711,17 @@ class strategy_smoother_fixedinterval(Smoother):
     def interpolate_fwd_at_t1(self, posterior_t1):
         marginals = posterior_t1.marginal
 
+        # Continue from the marginal at t1 with a unit backward model (like the
+        # fixed-point smoother does). The stored solution keeps its backward
+        # transition, but finalize() must not marginalise the terminal state
+        # through the backward transition of the step that has just ended at t1.
+        cond_identity = posterior_t1.marginal.identity_conditional()
+        resume_from = MarkovSequence(
+            posterior_t1.marginal,
+            conditional=cond_identity,
+            reverse=posterior_t1.reverse,
+        )
         interp_res = utilities.InterpResult(
-            step_from=posterior_t1, interp_from=posterior_t1
+            step_from=resume_from, interp_from=posterior_t1
         )
         return (marginals, posterior_t1), interp_res
